@@ -338,5 +338,10 @@ namespace occa {
     }
 
     alignment = newAlignment;
+
+    if ((reservations.size() == 0) && (size % alignment)) {
+      /*Keep the size of an unused buffer a multiple of the alignment*/
+      resize(((size + alignment - 1) / alignment) * alignment);
+    }
   }
 }
